@@ -447,3 +447,188 @@ def describe_diff(actual, expected):
         ke = [c for c in e[2] if c not in a[2]]
         return f"header differs: only in file {ka[:4]}, only in expected {ke[:4]}"
     return None  # same content, different bytes (padding/card order): content-equal
+
+
+# ------------------------------------------------------------------ concurrent staged runs
+
+
+_HOT = {"on": False, "threads": None, "installed": False}
+
+
+def _install_write_hook():
+    """Process-wide audit hook (cannot be removed; inert unless _HOT['on']): marks the thread
+    that just opened a file for writing, replaced or removed one, so that the concurrent
+    scheduler can pre-empt it at its next traced line — switches are biased to land right
+    after a run touched the disk, where two runs can step on each other."""
+    if _HOT["installed"]:
+        return
+    import threading
+
+    def hook(event, args):
+        if not _HOT["on"]:
+            return
+        if event == "open":
+            path, mode, flags = args
+            wr = (isinstance(mode, str) and any(c in mode for c in "wax+")) or (
+                isinstance(flags, int) and flags & (os.O_WRONLY | os.O_RDWR | os.O_CREAT | os.O_TRUNC | os.O_APPEND)
+            )
+            if not wr:
+                return
+        elif event not in ("os.remove", "os.rename", "os.replace", "shutil.move"):
+            return
+        _HOT["threads"][threading.get_ident()] = True
+
+    sys.addaudithook(hook)
+    _HOT["installed"] = True
+
+
+class _ThreadBox:
+    """box['table'] of the calling thread (results_table.init is wrapped once, globally)."""
+
+    def __init__(self, tables, ident):
+        self.tables = tables
+        self.ident = ident
+
+    def __getitem__(self, k):
+        return self.tables.get(self.ident)
+
+    def __setitem__(self, k, v):
+        self.tables[self.ident] = v
+
+
+def concurrent_runs(ctx, cfgs, rng_seed, clock_s, src_prefix):
+    """Two or more compute(write_stages=True) calls in one process, each in a real thread that
+    runs only while it holds the baton; the seeded scheduler decides, at repository-line
+    granularity, who runs next and for how long.  All runs stage into the SAME directory
+    (different output names).  Each run's tracer snapshots its own file at each of its own
+    stage boundaries (the other threads are parked at that instant).
+
+    Returns a list of dicts (one per run): status, K, snaps, sides, final, switches."""
+    import threading
+
+    import dask
+    import dask.diagnostics.progress as prog
+    import numpy as np
+
+    from . import seams
+
+    ch = ctx.ch
+    d = tempfile.mkdtemp(prefix="c17conc-")
+    rt = sys.modules["nuspacesim.results_table"]
+    compute = sys.modules["nuspacesim.compute"].compute
+    tables = {}
+    saved_init = rt.init
+    saved_pb = (prog.ProgressBar._start, prog.ProgressBar._finish)
+    saved_out = sys.stdout
+    cwd = os.getcwd()
+
+    def init(*a, **k):
+        t = saved_init(*a, **k)
+        tables[threading.get_ident()] = t
+        return t
+
+    def pb_start(bar, dsk):  # no timer thread: nothing may run outside the baton
+        bar._state = None
+        bar._start_time = 0.0
+        bar._running = False
+
+    def pb_finish(bar, dsk, state, errored):
+        bar._running = False
+        bar.last_duration = 0.0
+
+    runs = []
+    for i, cfg in enumerate(cfgs):
+        runs.append({
+            "i": i, "cfg": cfg, "out": os.path.join(d, f"out{i}.fits"), "go": threading.Semaphore(0), "back": threading.Semaphore(0),
+            "done": False, "status": None, "table": None, "tracer": None, "budget": 0, "grants": 0, "stop_hot": False, "hot_stops": 0,
+        })
+    side = os.path.join(d, "side")
+    os.mkdir(side)
+
+    def body(r):
+        r["go"].acquire()
+        me = threading.get_ident()
+        box = _ThreadBox(tables, threading.get_ident())
+        tr = StageTracer(src_prefix, box, r["out"], snapshot=True, side_dir=os.path.join(side, str(r["i"])))
+        os.mkdir(os.path.join(side, str(r["i"])))
+        r["tracer"] = tr
+        orig_local = tr.local
+
+        def local(frame, event, arg):
+            res = orig_local(frame, event, arg)
+            if event == "line":
+                r["budget"] -= 1
+                hot = r["stop_hot"] and _HOT["threads"].pop(me, False)
+                if r["budget"] <= 0 or hot:
+                    if hot:
+                        r["hot_stops"] += 1
+                    r["back"].release()
+                    r["go"].acquire()
+            return local if res is not None else None
+
+        tr.local = local
+        sys.settrace(tr.glob)
+        try:
+            r["table"] = compute(r["cfg"], output_file=r["out"], write_stages=True)
+            r["status"] = "returned"
+        except BaseException as e:  # noqa: BLE001
+            r["status"] = f"raised:{type(e).__name__}:{e}"[:300]
+        finally:
+            sys.settrace(None)
+            r["done"] = True
+            r["back"].release()
+
+    _install_write_hook()
+    _HOT["threads"] = {}
+    try:
+        os.chdir(d)
+        _HOT["on"] = True
+        rt.init = init
+        prog.ProgressBar._start, prog.ProgressBar._finish = pb_start, pb_finish
+        sys.stdout = _Null()
+        np.random.seed(rng_seed)
+        with seams.simulated_clock(lambda: clock_s), dask.config.set(scheduler="synchronous"):
+            for r in runs:
+                r["thread"] = threading.Thread(target=body, args=(r,), daemon=True)
+                r["thread"].start()
+            last = None
+            switches = 0
+            steps = 0
+            while True:
+                live = [r for r in runs if not r["done"]]
+                if not live:
+                    break
+                r = live[ch.draw(len(live), "conc_pick")]
+                q = (4000, 1200, 300, 60, 12, 2)[ch.draw(6, "conc_quantum")]
+                r["stop_hot"] = ch.draw(2, "conc_stop_after_write") == 1
+                if last is not None and last is not r and not last["done"]:
+                    switches += 1
+                last = r
+                r["budget"] = q
+                r["grants"] += 1
+                r["go"].release()
+                if not r["back"].acquire(timeout=120):
+                    raise HarnessError("concurrent run did not give the baton back within 120 s")
+                steps += 1
+                if steps > 200000:
+                    raise HarnessError("concurrent scheduler step cap")
+        out = []
+        for r in runs:
+            tr = r["tracer"]
+            res = {"status": r["status"], "K": tr.k, "snaps": tr.snaps, "sides": tr.sides, "final": None, "switches": switches,
+                   "grants": r["grants"], "hot_stops": r["hot_stops"], "stage_names": tr.stage_names, "spans": tr.spans, "steps": tr.steps, "rows": None}
+            if r["status"] == "returned":
+                fin = os.path.join(side, f"final{r['i']}.fits")
+                r["table"].write(fin, format="fits", overwrite=True)
+                res["final"] = open(fin, "rb").read()
+                res["rows"] = len(r["table"])
+                res["file"] = open(r["out"], "rb").read() if os.path.exists(r["out"]) else None
+            out.append(res)
+        return out
+    finally:
+        _HOT["on"] = False
+        os.chdir(cwd)
+        sys.stdout = saved_out
+        rt.init = saved_init
+        prog.ProgressBar._start, prog.ProgressBar._finish = saved_pb
+        shutil.rmtree(d, ignore_errors=True)
